@@ -270,14 +270,19 @@ def export_listarr(arr, scale=1):
     """buffers of a GeometryListArray as the model's [listarr] record.
     Coordinates are multiplied by `scale` (a power of two) and must then be integral."""
     import numpy as np
-    data = arr.data
+    data = arr.__arrow_array__() if hasattr(arr, '__arrow_array__') else arr.data
     bufs = data.buffers()
     off, n = data.offset, len(data)
     if len(bufs) < 3:
         raise ValueError('null-typed array: not modelled')
     valid = _bits(bufs[0], off + n)
     offs = []
-    nlev = arr._nesting_levels
+    # number of offset levels, read off the public arrow type (not a private attribute)
+    nlev, t = 0, data.type
+    import pyarrow as pa
+    while pa.types.is_list(t) or pa.types.is_large_list(t):
+        nlev += 1
+        t = t.value_type
     for lev in range(nlev):
         ob = np.frombuffer(bufs[1 + 2 * lev], dtype=np.uint32) if bufs[1 + 2 * lev] is not None \
             else np.array([0], dtype=np.uint32)
@@ -300,7 +305,7 @@ def export_listarr(arr, scale=1):
 
 def export_fixarr(arr, scale=1):
     import numpy as np
-    data = arr.data
+    data = arr.__arrow_array__() if hasattr(arr, '__arrow_array__') else arr.data
     bufs = data.buffers()
     off, n = data.offset, len(data)
     valid = _bits(bufs[0], off + n)
